@@ -25,20 +25,21 @@ type Violation struct {
 }
 
 type RunResult struct {
-	Sc      *Scenario
-	W       *World
-	H       *History
-	Trace   []Decision
-	Hash    string
-	Budget  string
-	Leak    string
-	Steps   int
-	Stalls  int
-	Diverge int
-	Virtual time.Duration
-	Viol    []Violation
-	Probes  map[string]int // rare-condition probes and fault counters
-	ix      *stepIdx
+	Sc       *Scenario
+	W        *World
+	H        *History
+	Trace    []Decision
+	Hash     string
+	Budget   string
+	Deadlock string // goroutines of the proxy waited for a mutex for ever (lock tracking of the autoyield build)
+	Leak     string
+	Steps    int
+	Stalls   int
+	Diverge  int
+	Virtual  time.Duration
+	Viol     []Violation
+	Probes   map[string]int // rare-condition probes and fault counters
+	ix       *stepIdx
 }
 
 // stepIdx returns the (memoised) index of the step events of the run's history.
@@ -106,12 +107,15 @@ func Execute(t *testing.T, sc *Scenario, replay []Decision) *RunResult {
 			s.Run()
 			res.Trace = s.trace
 			res.Budget = s.Budget
+			res.Deadlock = s.Deadlock
 			res.Steps = s.steps
 			res.Stalls = s.stalls
 			res.Diverge = s.Diverge
 			res.Virtual = s.Now()
 			h.Freeze() // what follows (post-run oracle work, teardown) is not part of the run
-			if p != nil && p.Post != nil {
+			// (after a deadlock the parked tasks stay parked - see Sim.Stop; the rest
+			// of the world is torn down as usual so that the bubble can end)
+			if p != nil && p.Post != nil && res.Deadlock == "" {
 				p.Post(w)
 			}
 			w.dead.Store(true)
